@@ -99,6 +99,10 @@ pub trait Host {
     fn bad_item(&mut self, _key: ReqKey) -> Option<bool> {
         None
     }
+    /// bridge only: answer the oldest render request still held. Some(true) = rejected as it must be
+    fn ack_render(&mut self) -> Option<bool> {
+        None
+    }
     /// bridge only: (never, once, many) entries in the registry
     fn registry_kinds(&mut self) -> Option<(usize, usize, usize)> {
         None
@@ -694,6 +698,18 @@ where
             }
             Err(e) => Err(format!("bridge rejected a valid response: {e}")),
         }
+    }
+    fn ack_render(&mut self) -> Option<bool> {
+        if self.render_ids.is_empty() {
+            return None;
+        }
+        let id = self.render_ids.remove(0);
+        // (the id may have been handed out again if the bridge forgot the entry some other way)
+        if self.ids.values().any(|(i, _)| *i == id) {
+            return None;
+        }
+        let bytes = self.encode_output(OpName::Render, 0);
+        Some(matches!(self.bridge.handle_response(id, &bytes), Err(BridgeError::ProcessResponse(_))))
     }
     fn bad_item(&mut self, key: ReqKey) -> Option<bool> {
         let (id, _op) = self.ids.get(&key).copied()?;
